@@ -1,6 +1,7 @@
 import Pendulum.Proofs.DiffSpec
 import Pendulum.Proofs.LocRange
 import Pendulum.Proofs.DiffDir
+import Pendulum.Proofs.DiffFmtGen
 /-! # C18 — human-readable differences are total, localized and correctly directed
 
 Property theorems only. `Gen.Locales.*` (27 locale dictionaries as `Node` trees, templates pre-split into literal /
@@ -369,5 +370,150 @@ example : okIs (format L_en.loc ⟨0, 0, 0, 3, 0, 0, 0, true⟩ true false) "in 
 example : okIs (format L_en.loc ⟨0, 0, 0, 3, 0, 0, 0, true⟩ false false) "3 days after" = true := by decide +kernel
 example : okIs (format L_en.loc ⟨0, 0, 0, 3, 0, 0, 0, false⟩ false false) "3 days before" = true := by decide +kernel
 example : okIs (format L_en.loc ⟨0, 0, 0, 3, 0, 0, 0, true⟩ false true) "3 days" = true := by decide +kernel
+
+/-! ## the model is what the source says (regenerated on every run)
+
+`Pendulum.Gen.DiffFmt` is regenerated by tools/gen_difffmt.py from difference_formatter.py, helpers.py, duration.py,
+interval.py, datetime.py, date.py, time.py and locales/locale.py — statement by statement; Python built-ins on objects
+(`PyOps`) and the loaded locale (`LocaleOps`) are parameters, instantiated below with the hand model's reading (`pyM`,
+`locM ℓ`; Proofs/DiffFmtGen.lean). `obs` reads the returned object as text. -/
+section SourceTie
+open Pendulum.DiffFmtGen
+open Pendulum.Gen.DiffFmt (DiffAttrs)
+
+/-- the `if/elif` cascade of `DifferenceFormatter.format` as written (order of the tests, thresholds, `count += 1`
+promotions) selects the unit and count of `selectUnit`, for every component tuple -/
+theorem select_unit_source_eq_model (c : Comps) :
+    Gen.DiffFmt.select_unit (attrs c) = (selectUnit c).map (fun un => (un.1.key, un.2)) := select_unit_eq c
+example : Gen.DiffFmt.select_unit ⟨0, 11, 2, 2, 0, 0, 0, false⟩ = some ("year", 1) := by decide
+example : Gen.DiffFmt.select_unit ⟨0, 0, 1, 4, 0, 0, 0, false⟩ = some ("week", 2) := by decide
+example : Gen.DiffFmt.select_unit ⟨0, 0, 0, 0, 0, 0, 10, false⟩ = none := by decide
+
+/-- after the cascade: `count == 0 ⇒ 1`, the key built from `absolute` / `is_now` / `invert` (CLDR `translations.units` /
+`translations.relative.<unit>.future|past`, or `custom.units_relative` with its fall-back, wrapped by `custom.after|before`)
+and the chain of `.format` calls are the model's `stepsUC` run on the count; the final `else` of the cascade ("a few
+seconds": `custom.units.few_second`, returned bare when `absolute`, else wrapped by `from_now|ago|after|before`, else
+falling through to unit `second`) is the model's `fewPlan` — for every locale value -/
+theorem template_choice_source_eq_model (ℓ : Locale) (d : DiffAttrs) (isNow ab : Bool) :
+    (∀ (u : String) (n : Int), obs (Gen.DiffFmt.render pyM (locM ℓ) d isNow ab u n) =
+      (match stepsUC ℓ u (ℓ.plural (fixCount n)) d.invert isNow ab with
+       | .error e => .error e
+       | .ok steps => runSteps steps (showInt (fixCount n)))) ∧
+    obs (Gen.DiffFmt.few_seconds pyM (locM ℓ) d isNow ab (fun unit count => Gen.DiffFmt.render pyM (locM ℓ) d isNow ab unit count)) =
+      (match fewPlan ℓ d.remaining_seconds d.invert isNow ab with
+       | .error e => .error e
+       | .ok p => p.run) :=
+  ⟨fun u n => render_eq ℓ d isNow ab u n, few_eq ℓ d isNow ab⟩
+
+/-- **`DifferenceFormatter.format` as written = `Loc.format`**, for every locale (in particular every locale of the
+regenerated tree), every component tuple, every flag combination; `locale=None` uses the instance's own locale -/
+theorem format_source_eq_model (ℓs : Locale) (L : String → Locale) (c : Comps) (isNow ab locNone : Bool) (loc : String) :
+    obs (Gen.DiffFmt.format pyM (locM ℓs) (fun n => locM (L n)) (attrs c) isNow ab locNone loc) =
+      format (if locNone then ℓs else L loc) c isNow ab := format_eq ℓs L c isNow ab locNone loc
+
+/-- hence the generated `format` is total on the regenerated locale tree -/
+theorem format_source_total : ∀ ℓ ∈ Gen.Locales.all, ∀ (c : Comps) (isNow ab : Bool),
+    Good (obs (Gen.DiffFmt.format pyM (locM ℓ) (fun _ => locM ℓ) (attrs c) isNow ab true "")) := by
+  intro ℓ hℓ c isNow ab
+  rw [format_source_eq_model]
+  exact format_diff_total ℓ hℓ c isNow ab
+
+example : okIs (obs (Gen.DiffFmt.format pyM (locM L_en.loc) (fun _ => locM L_ru.loc) ⟨0, 0, 0, 3, 0, 0, 0, false⟩ true false true ""))
+    "3 days ago" = true := by decide +kernel
+example : okIs (obs (Gen.DiffFmt.format pyM (locM L_en.loc) (fun _ => locM L_ru.loc) ⟨0, 0, 0, 0, 5, 0, 0, true⟩ true false false "ru"))
+    "через 5 часов" = true := by decide +kernel
+example : okIs (obs (Gen.DiffFmt.format pyM (locM L_de.loc) (fun _ => locM L_de.loc) ⟨2, 0, 0, 0, 0, 0, 0, false⟩ false false true ""))
+    "2 Jahren zuvor" = true := by decide +kernel
+example : okIs (obs (Gen.DiffFmt.format pyM (locM L_en.loc) (fun _ => locM L_en.loc) ⟨0, 0, 0, 0, 0, 0, 3, true⟩ true false true ""))
+    "in a few seconds" = true := by decide +kernel
+
+/-- `Duration.in_words` and `Interval.in_words` as written (the component list in source order, the `abs(count) > 0`
+filter, the plural class of `abs(count)`, the empty-parts branch with `abs(microseconds) / 1e6` rendered `:.2f` or the
+`microsecond` unit, `separator.join`) = `inWords` on the locale they resolve (`locale` if given, else the process-wide
+one; `Interval` also treats `""` as absent) -/
+theorem in_words_source_eq_model (L : String → Locale) (cur : String) (c : Comps) (us : Int) (locNone : Bool)
+    (loc : String) (sep : Str) :
+    obs (Gen.DiffFmt.duration_in_words pyM (fun n => locM (L n)) cur c.years c.months c.weeks c.days c.hours c.minutes
+      c.seconds us locNone loc (.text sep)) =
+      inWords (L (resolveLocale (if locNone then none else some loc) cur)) c us sep ∧
+    obs (Gen.DiffFmt.interval_in_words pyM (fun n => locM (L n)) cur c.years c.months c.weeks c.days c.hours c.minutes
+      c.seconds us locNone loc (.text sep)) =
+      inWords (L (resolveLocaleOr (if locNone then none else some loc) cur)) c us sep :=
+  ⟨duration_in_words_eq L cur c us locNone loc sep, interval_in_words_eq L cur c us locNone loc sep⟩
+example : okIs (obs (Gen.DiffFmt.duration_in_words pyM (fun _ => locM L_fr.loc) "fr" 1 2 0 0 3 0 0 0 true "" (.text [' '])))
+    "1 an 2 mois 3 heures" = true := by decide +kernel
+example : okIs (obs (Gen.DiffFmt.interval_in_words pyM (fun _ => locM L_en.loc) "en" 0 0 0 0 0 0 0 250000 true "" (.text [' '])))
+    "0.25 second" = true := by decide +kernel
+
+/-- `DateTime`/`Date`/`Time.diff_for_humans` and `helpers.format_diff` as written: `is_now = other is None`, the
+reference replaced by the current moment in that case, the class's own `diff` called with its default `abs=True`
+(read from `diff`'s signature), and `format_diff(diff, is_now, absolute, locale)` = the module-level
+`DifferenceFormatter().format` on the locale `locale` or, when `None`, `pendulum._LOCALE`.  `Date.diff` /
+`DateTime.diff` (the Interval they build) are pinned verbatim; `Time.diff` is tied in C20. -/
+theorem diff_for_humans_source_eq_model {O : Type} (L : String → Locale) (cur : String) (now : O)
+    (diff : O → Bool → DiffAttrs) (otherNone : Bool) (other : O) (ab locNone : Bool) (loc : String) :
+    let model := format (L (resolveLocale (if locNone then none else some loc) cur))
+      (compsOf (diff (if otherNone then now else other) true)) otherNone ab
+    obs (Gen.DiffFmt.datetime_diff_for_humans pyM (fun n => locM (L n)) cur now diff otherNone other ab locNone loc) = model ∧
+    obs (Gen.DiffFmt.date_diff_for_humans pyM (fun n => locM (L n)) cur now diff otherNone other ab locNone loc) = model ∧
+    obs (Gen.DiffFmt.time_diff_for_humans pyM (fun n => locM (L n)) cur now diff otherNone other ab locNone loc) = model ∧
+    (∀ c isNow, obs (Gen.DiffFmt.format_diff pyM (fun n => locM (L n)) cur (attrs c) isNow ab locNone loc) =
+      format (L (resolveLocale (if locNone then none else some loc) cur)) c isNow ab) := by
+  have hm : modelHumans L cur now diff (if otherNone then none else some other) ab (if locNone then none else some loc) =
+      format (L (resolveLocale (if locNone then none else some loc) cur))
+        (compsOf (diff (if otherNone then now else other) true)) otherNone ab := by
+    cases otherNone <;> rfl
+  exact ⟨(datetime_dfh_eq L cur now diff otherNone other ab locNone loc).trans hm,
+    (date_dfh_eq L cur now diff otherNone other ab locNone loc).trans hm,
+    (time_dfh_eq L cur now diff otherNone other ab locNone loc).trans hm,
+    fun c isNow => format_diff_eq L cur c isNow ab locNone loc⟩
+
+/-- the text of `Date.diff` / `DateTime.diff` the previous theorem relies on -/
+theorem diff_for_humans_diff_pinned :
+    Gen.DiffFmt.date_diff_src = "def diff(self, dt: date | None=None, abs: bool=True) -> Interval[Date]:\n    if dt is None:\n        dt = self.today()\n    return Interval(self, Date(dt.year, dt.month, dt.day), absolute=abs)" :=
+  diff_pinned.2
+example : okIs (obs (Gen.DiffFmt.date_diff_for_humans (O := Nat) pyM (fun _ => locM L_en.loc) "en" 0
+    (fun o a => ⟨0, 0, 0, (o : Int), 0, 0, 0, a⟩) false 3 false true "")) "3 days after" = true := by decide +kernel
+
+/-- `Locale.normalize_locale` (its regex compiled by the translator, class membership under `re.I` computed with
+Python's `re`) and `Locale.load` as written: the cache key, the name of the `Locale` and the directory imported are
+all the normalised name; a name without a directory is a `ValueError` (the `while` loop never reaches its fall-back) -/
+theorem locale_name_source_eq_model (lower : Str → Str) (pathExists : Str → Bool) (s : Str) :
+    Gen.DiffFmt.normalize_locale lower s = normalizeLocale lower s ∧
+    Gen.DiffFmt.locale_load lower pathExists s = loadKey lower pathExists s :=
+  ⟨normalize_eq lower s, load_eq lower pathExists s⟩
+example : Gen.DiffFmt.normalize_locale asciiLower "EN-gb".toList = "en_gb".toList := by decide
+example : Gen.DiffFmt.normalize_locale asciiLower "pt_BR.UTF-8".toList = "pt_br".toList := by decide
+example : Gen.DiffFmt.normalize_locale asciiLower "Fr".toList = "fr".toList := by decide
+example : (match Gen.DiffFmt.locale_load asciiLower (fun d => d == "en".toList) "en_XX".toList with
+    | .error e => e == "ValueError"
+    | .ok _ => false) = true := by decide
+example : (match Gen.DiffFmt.locale_load asciiLower (fun d => d == "en_gb".toList) "EN-gb".toList with
+    | .ok (a, b) => a == "en_gb".toList && b == "en_gb".toList
+    | .error _ => false) = true := by decide
+/-- every shipped name, spelled in upper case and with `-`, normalises to itself (the `alias` ops of the harness) -/
+theorem shipped_names_normalise : ∀ n ∈ Gen.Locales.names,
+    normalizeLocale asciiLower (n.toList.map (fun ch => if ch = '_' then '-' else ch.toUpper)) = n.toList := by
+  decide +kernel
+
+/-- `Locale.get` (walk of the nested dictionaries, `except KeyError: default`; a `TypeError` escapes),
+`translation`, `plural`, `ordinal`, `ordinalize` as written are `getFrom`, the `translations.` prefix, the two
+lambdas of the locale data and `Loc.ordinalize`; `match_translation` is pinned -/
+theorem locale_lookup_source_eq_model (ℓ : Locale) (p : String) (ps : List String) (key : List String) (n : Int) :
+    Gen.DiffFmt.locale_get pyM (.node (some ℓ.data)) (.node none) p ps =
+      (match ℓ.get (p :: ps) with
+       | .error e => .error e
+       | .ok o => .ok (.node o)) ∧
+    Gen.DiffFmt.locale_translation (locM ℓ) key = (locM ℓ).get ("translations" :: key) ∧
+    Gen.DiffFmt.locale_plural ℓ.plural n = ℓ.plural n ∧ Gen.DiffFmt.locale_ordinal ℓ.ordinal n = ℓ.ordinal n ∧
+    obs (Gen.DiffFmt.locale_ordinalize pyM (locM ℓ) n) = ordinalize ℓ n :=
+  ⟨get_eq ℓ.data p ps, (locale_methods_eq ℓ key n).1, (locale_methods_eq ℓ key n).2.1, (locale_methods_eq ℓ key n).2.2,
+    ordinalize_eq ℓ n⟩
+example : okIs (obs (Gen.DiffFmt.locale_ordinalize pyM (locM L_en.loc) 23)) "23rd" = true := by decide +kernel
+example : (match Gen.DiffFmt.locale_get pyM (.node (some L_en.loc.data)) (.node none) "translations" ["units", "day", "zzz"] with
+    | .ok (.node none) => true
+    | _ => false) = true := by decide +kernel
+
+end SourceTie
 
 end Pendulum.Props.C18
